@@ -19,12 +19,13 @@ VARIABLES l,        \* next event
           cfg,      \* stored head (label)
           stored,   \* all good heads ever stored in this run
           faulty,   \* a corrupted response has been served in this run
+          seckeys,  \* keys whose lookup ended in the security error since the client started (a repeated lookup returns the cached error)
           secs,     \* security reports received so far in this run: 0 none, 1 some but none with both heads, 2 one with both signed heads
           cur,      \* per lookup in progress: [key, cfgBefore, served, sec]  (function key -> record)
           fetched,  \* C14: set of <<client, key>> whose lookup file was read (cache or network) since the last restart
           bad       \* violated clauses: set of <<event index, clause>>
 
-vars == <<l, prefix, forked, cfg, stored, faulty, secs, cur, fetched, bad>>
+vars == <<l, prefix, forked, cfg, stored, faulty, secs, seckeys, cur, fetched, bad>>
 
 Empty == [kind |-> "empty", tl |-> "P", n |-> 0]
 \* ground truth: the tree of h1 is a prefix of the tree of h2
@@ -36,28 +37,28 @@ Has(f, x) == x \in DOMAIN f
 Flag(c) == bad' = bad \cup {<<l, c>>}
 FlagIf(conds) == bad' = bad \cup {<<l, c[2]>> : c \in {x \in conds : x[1]}}
 
-Init == /\ l = 1 /\ prefix = 0 /\ forked = FALSE /\ cfg = Empty /\ stored = {} /\ faulty = FALSE /\ secs = 0
+Init == /\ l = 1 /\ prefix = 0 /\ forked = FALSE /\ cfg = Empty /\ stored = {} /\ faulty = FALSE /\ secs = 0 /\ seckeys = {}
         /\ cur = <<>> /\ fetched = {} /\ bad = {}
 
 Step == l' = l + 1
 Reset == /\ e.k = "Reset"
          /\ prefix' = e.in.prefix /\ forked' = e.in.forked /\ cfg' = e.in.cfg0
          /\ stored' = IF e.in.cfg0.kind = "good" THEN {e.in.cfg0} ELSE {}
-         /\ faulty' = FALSE /\ secs' = 0 /\ cur' = <<>> /\ fetched' = {}
+         /\ faulty' = FALSE /\ secs' = 0 /\ seckeys' = {} /\ cur' = <<>> /\ fetched' = {}
          /\ UNCHANGED bad
 LookupStart ==
     /\ e.k = "LookupStart"
-    /\ cur' = [x \in DOMAIN cur \cup {e.in.g} |-> IF x = e.in.g THEN [key |-> e.in.key, cfgBefore |-> cfg, served |-> Empty, moved |-> FALSE] ELSE cur[x]]
-    /\ UNCHANGED <<prefix, forked, cfg, stored, faulty, secs, fetched, bad>>
+    /\ cur' = [x \in DOMAIN cur \cup {e.in.g} |-> IF x = e.in.g THEN [key |-> e.in.key, cfgBefore |-> cfg, served |-> Empty, moved |-> FALSE, newsec |-> 0] ELSE cur[x]]
+    /\ UNCHANGED <<prefix, forked, cfg, stored, faulty, secs, seckeys, fetched, bad>>
 \* a lookup response (from the network or the cache) was handed to the client
 Served ==
     /\ e.k = "Served"
     /\ cur' = IF Has(cur, e.in.g) THEN [cur EXCEPT ![e.in.g].served = e.in.head] ELSE cur
-    /\ UNCHANGED <<prefix, forked, cfg, stored, faulty, secs, fetched, bad>>
+    /\ UNCHANGED <<prefix, forked, cfg, stored, faulty, secs, seckeys, fetched, bad>>
 Fault ==
     /\ e.k = "Fault"
     /\ faulty' = TRUE
-    /\ UNCHANGED <<prefix, forked, cfg, stored, secs, cur, fetched, bad>>
+    /\ UNCHANGED <<prefix, forked, cfg, stored, secs, seckeys, cur, fetched, bad>>
 \* C01 ConfigAuthentic, C13 ConfigChain and NoTwoTimelines
 WriteConfig ==
     /\ e.k = "WriteConfig"
@@ -70,36 +71,38 @@ WriteConfig ==
                        <<e.in.new.kind = "good" /\ ~PrefixOf(cfg, e.in.new), "C13 stored head moved to a tree that does not contain the previous one">>,
                        <<e.in.new.kind = "good" /\ \E s \in stored : ~Consistent(s, e.in.new), "C13 two mutually inconsistent signed trees were both stored">>,
                        <<e.in.old # cfg, "C13 configuration write accepted although the old value did not match">>})
-    /\ UNCHANGED <<prefix, forked, faulty, secs, fetched>>
+    /\ UNCHANGED <<prefix, forked, faulty, secs, seckeys, fetched>>
 \* C01 CacheAuthentic
 WriteCacheLookup ==
     /\ e.k = "WriteCacheLookup"
     /\ FlagIf({<<~(e.in.parsed /\ e.in.rec.kind = "true" /\ e.in.head.kind = "good"
                    /\ (e.in.rec.id < e.in.head.n => (e.in.rec.tl = "P" \/ e.in.rec.tl = e.in.head.tl))),
                  "C01 lookup cache file written with content that is not an authentic record under a signed head">>})
-    /\ UNCHANGED <<prefix, forked, cfg, stored, faulty, secs, cur, fetched>>
+    /\ UNCHANGED <<prefix, forked, cfg, stored, faulty, secs, seckeys, cur, fetched>>
 WriteCacheTile ==
     /\ e.k = "WriteCacheTile"
     /\ FlagIf({<<Len(e.in.truth) = 0, "C01 tile cache file written with bytes that are not the true tile of any timeline">>})
-    /\ UNCHANGED <<prefix, forked, cfg, stored, faulty, secs, cur, fetched>>
+    /\ UNCHANGED <<prefix, forked, cfg, stored, faulty, secs, seckeys, cur, fetched>>
 WriteCacheOther ==
     /\ e.k = "WriteCacheOther"
     /\ Flag("C01 unexpected cache file written")
-    /\ UNCHANGED <<prefix, forked, cfg, stored, faulty, secs, cur, fetched>>
+    /\ UNCHANGED <<prefix, forked, cfg, stored, faulty, secs, seckeys, cur, fetched>>
 \* the security callback was invoked; notes = how many signed heads of the world its message contains verbatim
 Security ==
     /\ e.k = "Security"
     /\ secs' = IF e.in.notes >= 2 THEN 2 ELSE IF secs = 2 THEN 2 ELSE 1
-    /\ UNCHANGED <<prefix, forked, cfg, stored, faulty, cur, fetched, bad>>
+    /\ cur' = [x \in DOMAIN cur |-> [cur[x] EXCEPT !.newsec = IF e.in.notes >= 2 THEN 2 ELSE IF @ = 2 THEN 2 ELSE 1]]
+    /\ UNCHANGED <<prefix, forked, cfg, stored, faulty, seckeys, fetched, bad>>
 \* C14 FetchOnce: the lookup file of a key is read at most once per client (until a restart)
 Fetch ==
     /\ e.k = "Fetch"
     /\ fetched' = fetched \cup {<<e.in.c, e.in.key>>}
     /\ FlagIf({<<<<e.in.c, e.in.key>> \in fetched, "C14 the same lookup was fetched twice by one client">>})
-    /\ UNCHANGED <<prefix, forked, cfg, stored, faulty, secs, cur>>
+    /\ UNCHANGED <<prefix, forked, cfg, stored, faulty, secs, seckeys, cur>>
 Restart ==
     /\ e.k = "Restart"
     /\ fetched' = {p \in fetched : p[1] # e.in.c}
+    /\ seckeys' = {}
     /\ UNCHANGED <<prefix, forked, cfg, stored, faulty, secs, cur, bad>>
 \* C01 ResultAuthentic / HonestLive, C13 ForkRefused / SecurityHasBoth
 LookupEnd ==
@@ -109,17 +112,18 @@ LookupEnd ==
                <<~faulty /\ ~forked /\ ~e.in.skip /\ ~(e.in.ok /\ e.in.lines = "true"), "C01 honest server and cache but the lookup did not return the server's lines">>,
                <<c.served.kind = "good" /\ c.cfgBefore.kind = "good" /\ ~Consistent(c.cfgBefore, c.served) /\ e.in.ok,
                  "C13 lookup succeeded although the server presented a signed tree inconsistent with the stored one">>,
-               \* (a repeated lookup may return the cached security error of the earlier one: any earlier report counts)
-               <<e.in.err = "security" /\ secs = 0, "C13 security error without a security report">>,
-               <<e.in.err = "security" /\ secs = 1, "C13 security report does not carry both signed tree heads">>,
+               \* (a repeated lookup of a key returns the cached security error of the first one, without a new report)
+               <<e.in.err = "security" /\ c.newsec = 0 /\ c.key \notin seckeys, "C13 security error without a security report">>,
+               <<e.in.err = "security" /\ c.newsec = 1, "C13 security report does not carry both signed tree heads">>,
                <<e.in.skip /\ e.in.err # "skip", "C14 a path matching the private pattern list was not skipped">>})
     /\ cur' = [x \in DOMAIN cur \ {e.in.g} |-> cur[x]]
+    /\ seckeys' = IF e.in.err = "security" THEN seckeys \cup {cur[e.in.g].key} ELSE seckeys
     /\ UNCHANGED <<prefix, forked, cfg, stored, faulty, secs, fetched>>
 \* C14 at quiescence the stored head is the largest head any client received
 Quiesce ==
     /\ e.k = "Quiesce"
     /\ FlagIf({<<~faulty /\ ~forked /\ e.in.maxServed > 0 /\ cfg.n # e.in.maxServed, "C14 at quiescence the stored head is not the largest tree any client received">>})
-    /\ UNCHANGED <<prefix, forked, cfg, stored, faulty, secs, cur, fetched>>
+    /\ UNCHANGED <<prefix, forked, cfg, stored, faulty, secs, seckeys, cur, fetched>>
 
 Next == l <= Len(Trace) /\ Step /\
         (Reset \/ LookupStart \/ Served \/ Fault \/ WriteConfig \/ WriteCacheLookup \/ WriteCacheTile \/ WriteCacheOther
